@@ -86,7 +86,19 @@ SPEC = {
     "finding_key": finding_key,
     "shrink": shrink,
     "search": search,
-    "level_text": "Proof (partial): see notes/C12.md",
+    "level_text": "Proof, partial. Kernel-checked for every macro list, token list and include graph: the model's expansion "
+                  "function (loop + recursive expansion of arguments and bodies of preprocess.rs, after the d00f5aa fix) is total by "
+                  "the lexicographic measure (enabled macros, tokens right of next_pos) and its measure guards never fire "
+                  "(expand_terminates); invoking an object-like / function-like macro (n >= 1 parameters, arguments with nested "
+                  "parentheses and commas) on inert text yields the body with the arguments substituted; the macro list never holds "
+                  "two entries of a name and lookup = latest #define not followed by #undef (from a duplicate-free start); #include = "
+                  "the file's lines between two block boundaries; a #pragma once file contributes once; API defines and #define "
+                  "lines build the same macro list up to location bits (distinct names, trimmed values without ##). Proved FALSE "
+                  "with witnesses replayed on the real code: API defines = #define lines in general (## in the value, duplicate "
+                  "names, unlex panic). Partial: equivalence with the reference C algorithm (Spec.CPre.expand, Prosser) is proved for "
+                  "object-like macros with inert bodies only; nested rescanning, ## and function-like macros on the reference side "
+                  "are covered by the correspondence run against an independent reference preprocessor in the harness, which "
+                  "exhibits eight reproducible deviations from C (listed as known findings).",
     "rule": "requests = (API define list, include graph of files given line by line as token lists); the harness renders the "
             "files, checks with the real lexer that every line lexes to exactly the request's tokens, runs the real "
             "rssl_preprocess::preprocess + prepare_tokens and compares kinds/values of the result with the model and with an "
